@@ -215,6 +215,21 @@ func OracleC02(res *Result) []Finding {
 					add("c02-mutation-ran-foreign-query", "event %d: mutation %s (generation %d) executed %s, its query asks for %s", i, g.ID, g.Gen, e.Field, want[0])
 				}
 			}
+		case "arg":
+			// a resolver was called with an argument: it must be the value of the subscription's own variable
+			if e.Gen < 0 || e.Gen >= len(v.gens) {
+				break
+			}
+			g := v.gens[e.Gen]
+			if g.IsMut || g.Msg < 0 || g.Msg >= len(res.Fed) {
+				break
+			}
+			op := res.Fed[g.Msg]
+			if name := QueryVar(op.Q); name != "" {
+				if want, ok := op.Vars[name].(float64); ok && int(want) != e.Ver {
+					add("c02-run-with-foreign-variables", "event %d: a computation of %s (generation %d, variables %s) called %s with %d", i, g.ID, g.Gen, js(op.Vars), e.Field, e.Ver)
+				}
+			}
 		case "mwend":
 			if e.Err != "" || e.Gen < 0 || e.Gen >= len(v.gens) {
 				break
@@ -317,7 +332,7 @@ func queryKeys(text string, mutation bool) []string {
 		return ks
 	}
 	var ks []string
-	if q, err := graphql.Parse(text, nil); err == nil && q.SelectionSet != nil {
+	if q, err := graphql.Parse(text, map[string]interface{}{"n": float64(0), "id": float64(0)}); err == nil && q.SelectionSet != nil {
 		if sels, err := graphql.Flatten(q.SelectionSet); err == nil {
 			for _, sel := range sels {
 				ks = append(ks, sel.Alias)
